@@ -97,6 +97,8 @@ type MotionProcessor struct {
 	StartSnapshot     bool
 	SnapshotRecording bool
 	snapshotFrames    int
+
+	currentSlotRejected bool
 }
 
 type RecordingListener interface {
@@ -113,10 +115,12 @@ func (mp *MotionProcessor) Reset(camera cptvframe.CameraSpec) {
 func (mp *MotionProcessor) Process(rawFrame []byte) error {
 	frame := mp.frameLoop.Current()
 	if err := mp.parseFrame(rawFrame, frame, mp.motionDetector.start); err != nil {
+		mp.currentSlotRejected = true
 		mp.stopRecording()
 		mp.stopConstantRecorder()
 		return err
 	}
+	mp.currentSlotRejected = false
 	mp.CurrentFrame += 1
 	mp.process(frame)
 	mp.processConstantRecorder(frame)
@@ -232,6 +236,10 @@ func (mp *MotionProcessor) ProcessFrame(srcFrame *cptvframe.Frame) {
 func (mp *MotionProcessor) GetRecentFrame() (uint32, *cptvframe.Frame) {
 	if mp.CurrentFrame == 0 {
 		// Nothing has been received on this connection yet.
+		return 0, nil
+	}
+	if mp.currentSlotRejected && mp.frameLoop.size == 1 {
+		// With a single slot the most recent frame has just been overwritten by a rejected frame.
 		return 0, nil
 	}
 	return mp.CurrentFrame, mp.frameLoop.CopyRecent()
